@@ -1,6 +1,7 @@
 package main
 
 import (
+	"crypto/sha256"
 	"encoding/json"
 	"flag"
 	"fmt"
@@ -164,7 +165,7 @@ func main() {
 	}
 	if d := os.Getenv("VERIF_REPO"); d != "" {
 		repoDir = d
-		cacheTag = "_alt"
+		cacheTag = fmt.Sprintf("_alt%x", sha256.Sum256([]byte(d)))[:12]
 	}
 	switch os.Args[1] {
 	case "run":
